@@ -939,6 +939,10 @@ class Evaluator(object):
                 out.extend(self.bind_loop_target(tgt.elts[1], x, lid, s, node) if False else
                            self.assign_target(tgt.elts[1], ('elem', x, lid), s, node))
             return out
+        if name == 'range' and T.dotted(it[1]) == 'range' and len(it[2]) == 1 and not it[3] and isinstance(tgt, ast.Name) and it[2][0][0] == 'call' \
+                and T.dotted(it[2][0][1]) == 'len' and len(it[2][0][2]) == 1 and it[2][0][2][0][0] in ('param', 'attr', 'name', 'call', 'sub'):
+            # `for i in range(len(xs))`: i is the index `for i, x in enumerate(xs)` gives, and xs[i] the element (see _subscript)
+            return self.assign_target(tgt, ('idx', it[2][0][2][0], lid), st, node)
         if name == 'zip' and T.dotted(it[1]) == 'zip' and isinstance(tgt, (ast.Tuple, ast.List)) \
                 and len(tgt.elts) == len(it[2]) and not any(a[0] == 'star' for a in it[2]):
             states = [st]
@@ -1466,6 +1470,8 @@ class Evaluator(object):
         if o[0] in ('tuple', 'list') and i[0] == 'const' and isinstance(i[1], int) \
                 and not any(x[0] == 'star' for x in o[1]) and -len(o[1]) <= i[1] < len(o[1]):
             return o[1][i[1]]
+        if i[0] == 'idx' and len(i) == 3 and i[1] == o:
+            return ('elem', o, i[2])                       # xs[i] with i the running index over xs: the element of that iteration
         if i[0] == 'const':
             r = T.container_lookup(o, i) if o[0] in ('dict', 'setitem', 'call') else None
             if r is not None:
